@@ -101,7 +101,9 @@ func c13Gen(r *Rand, tier string, i int) Scenario {
 	return sc
 }
 
-func c13FileLine(sess, file, n int) string { return fmt.Sprintf("R%d:%d:%d:%s", sess, file, n, strings.Repeat("z", (n*5+file)%40)) }
+func c13FileLine(sess, file, n int) string {
+	return fmt.Sprintf("R%d:%d:%d:%s", sess, file, n, strings.Repeat("z", (n*5+file)%40))
+}
 
 func c13Run(t *testing.T, s Scenario, src verifsim.DecisionSource, keep bool) *RunResult {
 	sc := s.(*C13Scenario)
@@ -476,8 +478,8 @@ func init() {
 			"command (waiting at the limiter, just after acquisition, mid-read), schedule bias at the limiter select; a second wave of 2*limit long reads measures the number of " +
 			"usable slots; invariant checked after every step touching readcommand.go/readfile.go: open scenario files (from /proc/self/fd) <= limit; " +
 			"non-trivial = the cat or tail limit was actually reached; distinct = (scenario shape, schedule hash)",
-		Real: []string{"internal/server (real SSH server)", "internal/server/handlers (readCommand.read limiter logic)", "internal/io/fs", "x/crypto/ssh server side over simnet"},
-		Stub: []string{"the dtail client is replaced by harness-driven x/crypto/ssh client sessions that speak the wire protocol (the property is server-wide)", "TCP replaced by simnet"},
+		Real:        []string{"internal/server (real SSH server)", "internal/server/handlers (readCommand.read limiter logic)", "internal/io/fs", "x/crypto/ssh server side over simnet"},
+		Stub:        []string{"the dtail client is replaced by harness-driven x/crypto/ssh client sessions that speak the wire protocol (the property is server-wide)", "TCP replaced by simnet"},
 		Assumptions: []string{"each session reads its own files, so distinct open paths = distinct reads", "counting model instead of a linearizability checker: operations never overlap under the controller"},
 		New:         func() Scenario { return &C13Scenario{} },
 		Gen:         c13Gen,
